@@ -160,6 +160,8 @@ def build(tier):
     # --- chains (depth 2) and full-width argument arithmetic
     for i, (l, a, b) in enumerate(RQ[:8] if q else RM):
         sh = GROW[i % 5]
+        if sh == "APPENDED" and b - a < 2:
+            sh = "SHARED"           # the APPENDED shape is built from two parts: it needs at least 2 bits (as in shapes_for)
         j = i % 3
         (l2, a2, b2) = TAILS[j]
         sh2 = ["SHARED", "UNIQUE"][i % 2]
